@@ -33,6 +33,8 @@ OutSample(h, c) == KeepWhere(h, c, LAMBDA s : s > 0)
 AllIn(h, c)  == \A i \in DOMAIN h.vals : RelSteps(h, c)[i] <= 0
 AllOut(h, c) == \A i \in DOMAIN h.vals : RelSteps(h, c)[i] > 0
 Indexer(h, c) == [i \in DOMAIN h.vals |-> RelSteps(h, c)[i] - 1]
+\* the other documented form: zero-based from the horizon's own first step
+Indexer0(h, c) == [i \in DOMAIN h.vals |-> RelSteps(h, c)[i] - RelSteps(h, c)[1]]
 AbsInt(h, c, start) == [i \in DOMAIN h.vals |-> AbsTimes(h, c)[i] - start]
 
 (* Everything observable for one (raw input, cutoff, start).                *)
@@ -45,7 +47,7 @@ Expected(raw, c, start) ==
        ins |-> InSample(h, c).vals, oos |-> OutSample(h, c).vals,
        insrel |-> h.rel, oosrel |-> h.rel,
        allin |-> AllIn(h, c), allout |-> AllOut(h, c),
-       idx |-> Indexer(h, c), absint |-> AbsInt(h, c, start),
+       idx |-> Indexer(h, c), idx0 |-> Indexer0(h, c), absint |-> AbsInt(h, c, start),
        emptyrej |-> TRUE]
 
 -----------------------------------------------------------------------------
@@ -70,6 +72,8 @@ PredicatesAgree(raw, c, o) ==
 IndexerIsStepsMinusOne(raw, c, o) ==
     /\ Len(o.idx) = Len(o.relv)
     /\ \A i \in DOMAIN o.idx : o.idx[i] = o.relv[i] - 1
+    /\ Len(o.idx0) = Len(o.relv)
+    /\ \A i \in DOMAIN o.idx0 : o.idx0[i] = o.relv[i] - o.relv[1]
 EmptyRejectedByCheck(raw, c, o) == o.emptyrej
 
 HClauseNames == << "StoredSorted", "AbsIsCutoffPlusSteps", "RoundTrip", "PartitionAtZero",
